@@ -436,12 +436,31 @@ def matcher(P, R):
                 and n_ex['l'].get('callee') == 'strchr' and const_of(n_ex['l']['args'][1]) == ord(':') and on_path(n_ex['l']['args'][0], 'account', core.REQ_REC) \
                 and on_path(n_ex.get('r'), 'account', core.REQ_REC):
             prefix = True
+        # ... or measured: strcspn(account, ":") is the length of the part before the first colon (all of it if there is none)
+        if isinstance(n_ex, dict):
+            nv = n_ex
+            while isinstance(nv, dict) and nv.get('k') == 'cast':
+                nv = nv.get('e')
+            if isinstance(nv, dict) and nv.get('k') == 'callref' and nv.get('callee') == 'strcspn' and len(nv.get('args') or ()) == 2 and on_path(nv['args'][0], 'account', core.REQ_REC) \
+                    and nv['args'][1].get('k') == 'str' and nv['args'][1].get('v') == ':':
+                prefix = True
         R.ob('C11.FMT.1', bool(idi) and (idi.startswith('4 ') or prefix), s, 'the account name before the stamp is copied as the exact prefix up to the colon (%s)' % (idi or why), key='account-cut')
         nul = [t for t in m.stores() if t.ev['k'] == 'store' and t.ev['lhs'].get('k') == 'idx' and same(t.ev['lhs']['base'], s.ev['args'][0]) and const_of(t.ev.get('rhs')) == 0
                and same(t.ev['lhs']['index'], s.ev['args'][2])]
         R.ob('C11.FMT.1', bool(nul) and m.path_avoiding(s, lambda t: t in nul) is None, s, 'the copied account name is terminated right after the prefix', key='account-cut-nul')
-    seps = [s for s in m.sites() if (s.ev.get('rhs') or s.ev.get('init') or {}).get('callee') == 'strchr' and const_of((s.ev.get('rhs') or s.ev.get('init'))['args'][1]) == ord(':')]
-    R.ob('C11.FMT.1', len(seps) == 1 and on_path(seps[0].ev.get('rhs', seps[0].ev.get('init'))['args'][0], 'account', core.REQ_REC), seps[0] if seps else m,
+    def colon_search(v):
+        while isinstance(v, dict) and v.get('k') == 'cast':
+            v = v.get('e')
+        if not (isinstance(v, dict) and v.get('k') == 'callref' and len(v.get('args') or ()) == 2):
+            return False
+        return (v.get('callee') == 'strchr' and const_of(v['args'][1]) == ord(':')) or (v.get('callee') == 'strcspn' and v['args'][1].get('k') == 'str' and v['args'][1].get('v') == ':')
+    seps = [s for s in m.sites() if colon_search(s.ev.get('rhs') or s.ev.get('init') or {})]
+    def arg0(s_):
+        v = s_.ev.get('rhs') or s_.ev.get('init') or {}
+        while isinstance(v, dict) and v.get('k') == 'cast':
+            v = v.get('e')
+        return v['args'][0]
+    R.ob('C11.FMT.1', len(seps) == 1 and on_path(arg0(seps[0]), 'account', core.REQ_REC), seps[0] if seps else m,
          'the stamp suffix is located by the first colon of the client\'s account', key='account-colon')
     # GRD.3
     for s in m.calls('iauth_trust_username'):
